@@ -63,6 +63,9 @@ def _b_files(mk, uk, ls):
                       "procedure, nopass :: ext_run => describe_shape", "end type square",
                       "contains", "subroutine describe_square(self)", "class(square) :: self", "end subroutine describe_square",
                       "end module app",
+                      # a rename without ONLY frees the original name: B's own `base_t` is not hidden by A's
+                      "module app2", "use base_m, ext_base => base_t", "type base_t", "integer :: own", "end type base_t",
+                      "type(base_t) :: mine", "type(ext_base) :: theirs", "end module app2",
                       # every kind of program unit can use a module of the other project
                       "block data b_init", "use geom, only: shape", "type(shape) :: origin", "common /geometry/ origin", "end block data b_init"]}
 
@@ -99,7 +102,14 @@ def _observe(p):
             "procedure(area_iface)": choice.apply(_classify, vs[4].proto[0]) if len(vs) > 4 and vs[4].proto else "unresolved",
             "find(shared)": "none" if found is None else choice.apply(_classify, found),
             "block data: type(shape)": _bd_proto(p),
+            "app2: type(base_t) after `use base_m, ext_base => base_t`": _app2(p, 0), "app2: type(ext_base)": _app2(p, 1),
             "bindings of square": binds}
+
+
+def _app2(p, i):
+    m = [x for x in p.modules if choice.apply(lambda n: str(n).lower() == "app2", x.name) is True]
+    vs = list(m[0].variables) if m else []
+    return choice.apply(_classify, vs[i].proto[0]) if len(vs) > i and vs[i].proto else "unresolved"
 
 
 def _bd_proto(p):
@@ -113,6 +123,7 @@ def rule(local_kinds, local_shared):
     return {"use kinds": "local" if local_kinds else "external", "use geom": "external",
             "type(tol_t)": "local" if local_kinds else "external", "type(shape)": "external", "type(root_t)": "external", "type(root2_t)": "external", "procedure(area_iface)": "external",
             "find(shared)": "local" if local_shared else "external", "block data: type(shape)": "external",
+            "app2: type(base_t) after `use base_m, ext_base => base_t`": "local", "app2: type(ext_base)": "external",
             # B's own `describe` replaces A's `Describe`; `area` is inherited from A
             "bindings of square": [("area", "external"), ("describe", "local"), ("ext_run", "local")],
             # B may name a procedure of A as a specific of its own generic interface or as the target of a binding
@@ -169,7 +180,8 @@ def local_first(ctx):
             want = choice.apply(rule, mk[1], ls[1])
             h.want = want
             for k in ("use kinds", "use geom", "type(tol_t)", "type(shape)", "type(root_t)", "type(root2_t)", "procedure(area_iface)", "find(shared)", "bindings of square", "block data: type(shape)",
-                      "target of binding ext_run", "specific of interface ext_gen"):
+                      "target of binding ext_run", "specific of interface ext_gen",
+                      "app2: type(base_t) after `use base_m, ext_base => base_t`", "app2: type(ext_base)"):
                 E.require(choice.apply(lambda g, w_, k=k: g == w_[k], got[k], want), f"{k}: wrong side (local/external) chosen")
 
         E = sym.Engine(ctx, max_paths=20000, incremental=True)
